@@ -337,6 +337,29 @@ def r3_typestate(ctx):
                     if isinstance(p, (ast.ListComp, ast.DictComp, ast.GeneratorExp, ast.SetComp)):
                         guarded = guarded or any(obj in txt(c) for g in p.generators for c in g.ifs)
                     p = parent(p)
+                # a helper that receives the error as a parameter: the shape may be tested at every call site instead
+                if not guarded and isinstance(attr.value, ast.Name) and attr.value.id in f.params and f.cls is None:
+                    pidx = f.params.index(attr.value.id)
+                    sites = []
+                    for g in f.module.all_functions:
+                        for cc in calls_in(g.node):
+                            if isinstance(cc.func, ast.Name) and cc.func.id == f.name and g is not f:
+                                sites.append((g, cc))
+                    if not sites and f.name.startswith("_"):
+                        continue   # expanded at every call site by the normaliser (N10): judged there, with the caller's guards
+                    ok_sites = bool(sites)
+                    for g, cc in sites:
+                        a_ = cc.args[pidx] if pidx < len(cc.args) else kw(cc, attr.value.id)
+                        if a_ is None:
+                            ok_sites = False
+                            continue
+                        gcfg = cfg_of(g.node)
+                        gnode = gcfg.node_of(enclosing_stmt(cc))
+                        tgt = f"{txt(a_)}.{attr.attr}"
+                        gpc = path_condition(gcfg, gnode.id, keep=lambda t, nn, tgt=tgt: tgt in t and any(x in t for x in TYPE_GUARDS)) if gnode is not None else ((), None)
+                        if not gpc[0]:
+                            ok_sites = False
+                    guarded = ok_sites
                 ctx.ob("R3", f, f"`{use}` is used only after its shape is tested", guarded,
                        f"guarded by {show_condition(pc)}" if guarded else
                        f"{obj} of a collected error may be a scalar / None (dtype, presence and check-error results carry "
